@@ -36,6 +36,7 @@ type c51SlRule struct {
 
 type c51SlSc struct {
 	Rules []c51SlRule
+	Amb   []c51SlRule // rules of the credential-ambiguity family (c51ambig.go), hosts a<i>.example.org
 }
 
 func c51SlScenario(cfgSeed uint64) *c51SlSc {
@@ -84,6 +85,7 @@ func c51SlScenario(cfgSeed uint64) *c51SlSc {
 		ru.Nodes = nodes
 		sc.Rules = append(sc.Rules, ru)
 	}
+	sc.Amb = c51SlAmbRules(cfgSeed) // own generator stream: the rules above do not depend on it
 	return sc
 }
 
@@ -110,7 +112,7 @@ func c51SlinkMod() *c51Mod {
 				ExpressionNodes []c51SlNode
 			}
 			var rules []rf
-			for _, ru := range sc.Rules {
+			for _, ru := range append(append([]c51SlRule{}, sc.Rules...), sc.Amb...) {
 				rules = append(rules, rf{fmt.Sprintf("req_host_in(%q)", ru.Host), ru.ChecksumKey, ru.ExpiresKey, ru.Nodes})
 			}
 			b, _ := json.MarshalIndent(map[string]interface{}{"Version": fmt.Sprintf("%016x", cfgSeed), "Config": map[string]interface{}{"pn": rules}}, "", " ")
@@ -122,6 +124,9 @@ func c51SlinkMod() *c51Mod {
 		scen:  [2]int{4, 24},
 		cases: [2]int{700, 1750},
 		must:  []string{"securelink_uncovered_passed", "securelink_not_judged", "securelink_uri_rule_cases"},
+
+		ambig:      c51SlAmbRun,
+		ambigCases: [2]int{500, 1000},
 	}
 }
 
